@@ -386,9 +386,10 @@ def _kept_method(Context):
     """ctx.eval("var m = [1,2,3].map"); (time passes) ctx.eval("m(f)") -- the method value is used in a later evaluation"""
     import time as _t
     for attempt in range(4):
-        c = Context(time_limit=1.0)
+        limit = (1.0, 2.0, 4.0, 8.0)[attempt]
+        c = Context(time_limit=limit)
         c.eval("var m = [1, 2, 3].map; 0")
-        _t.sleep(1.1)
+        _t.sleep(limit + 0.1)
         t0 = _t.monotonic()
         try:
             a = c.eval("m(function (x) { for (var i = 0; i < 300; i++); return x }).join()")
@@ -396,9 +397,9 @@ def _kept_method(Context):
         except Exception as e:  # noqa
             # under full machine load the second evaluation may really need more than its own second: only a stop
             # BEFORE its own deadline is the old deadline at work
-            if type(e).__name__ == "TimeLimitError" and _t.monotonic() - t0 >= 1.0 and attempt < 3:
+            if type(e).__name__ == "TimeLimitError" and _t.monotonic() - t0 >= limit and attempt < 3:
                 continue
-            raise
+            raise type(e)(f"{e} ({_t.monotonic() - t0:.2f} s after the evaluation started, time_limit={limit})")
         return f"{a}|{b}"
 
 
